@@ -1,4 +1,5 @@
 import sys, json, time
+sys.set_int_max_str_digits(0)
 from pvx import run
 H = run._load(sys.argv[1])
 if hasattr(H,'prepare'): H.prepare('quick')
